@@ -17,7 +17,7 @@ Definition env := list (ident * nat).
 
 Inductive layer :=
 | Layer (lenv : env) (outer : octx) (locals : list (ident * expr))
-        (asserts : list (expr * option expr)) (fields : list (str * vis * bool * expr))
+        (asserts : list (expr * option expr)) (fields : list (str * vis * bool * expr * list (ident * nat)))
 with octx :=
 | OCtx (self : option (nat * list layer * nat)) (dollar : option (nat * list layer)).
 
@@ -114,10 +114,11 @@ Fixpoint str_cmp (a b : str) : comparison :=
   end.
 
 Definition layer_fields (l : layer) := match l with Layer _ _ _ _ f => f end.
-Fixpoint find_field (fs : list (str * vis * bool * expr)) (name : str) : option (vis * bool * expr) :=
+Fixpoint find_field (fs : list (str * vis * bool * expr * list (ident * nat))) (name : str)
+  : option (vis * bool * expr * list (ident * nat)) :=
   match fs with
   | [] => None
-  | (n, v, p, b) :: t => if str_eqb n name then Some (v, p, b) else find_field t name
+  | (n, v, p, b, fe) :: t => if str_eqb n name then Some (v, p, b, fe) else find_field t name
   end.
 
 (** index of the right-most layer below [upto] that defines [name] *)
@@ -140,9 +141,9 @@ Fixpoint vis_from (ls : list layer) (name : str) (acc : option vis) : option vis
   | l :: t =>
       vis_from t name
         (match find_field (layer_fields l) name with
-         | Some (VisHidden, _, _) => Some VisHidden
-         | Some (VisUnhide, _, _) => Some VisUnhide
-         | Some (VisNormal, _, _) => match acc with None => Some VisNormal | a => a end
+         | Some (VisHidden, _, _, _) => Some VisHidden
+         | Some (VisUnhide, _, _, _) => Some VisUnhide
+         | Some (VisNormal, _, _, _) => match acc with None => Some VisNormal | a => a end
          | None => acc
          end)
   end.
@@ -160,7 +161,7 @@ Fixpoint insert_sorted (x : str) (l : list str) : list str :=
               end
   end.
 Definition all_names (ls : list layer) : list str :=
-  fold_left (fun acc l => fold_left (fun acc f => match f with (n, _, _, _) => insert_sorted n acc end)
+  fold_left (fun acc l => fold_left (fun acc f => match f with (n, _, _, _, _) => insert_sorted n acc end)
                                     (layer_fields l) acc) ls [].
 Definition visible_names (ls : list layer) : list str := filter (visible ls) (all_names ls).
 
@@ -456,15 +457,27 @@ Fixpoint eval (n : nat) (ev : env) (oc : octx) (e : expr) {struct n} : M value :
                              | Field ne v p b =>
                                  nv <- eval n' ev oc ne ;;
                                  match nv with
-                                 | VStr s => ret (Some (s, v, p, b))
+                                 | VStr s => ret (Some (s, v, p, b, @nil (ident * nat)))
                                  | VNull => ret None
                                  | _ => fail KType
                                  end
                              end) fields ;;
         let fs' := fold_right (fun o acc => match o with Some x => x :: acc | None => acc end) [] fs in
-        if has_dup (map (fun f => match f with (nm, _, _, _) => nm end) fs') then fail KType
+        if has_dup (map (fun f => match f with (nm, _, _, _, _) => nm end) fs') then fail KType
         else if has_dup_id (map fst locals) then fail KType
         else oid <- fresh_oid ;; ret (VObj oid [Layer ev oc locals asserts fs'])
+    | EObjComp ne body specs =>
+        envs <- comp n' ev oc specs ;;
+        fs <- mapM (fun ev1 =>
+                      nv <- eval n' ev1 oc ne ;;
+                      match nv with
+                      | VStr s => ret (Some (s, VisNormal, false, body, firstn (length ev1 - length ev) ev1))
+                      | VNull => ret None
+                      | _ => fail KType
+                      end) envs ;;
+        let fs' := fold_right (fun o acc => match o with Some x => x :: acc | None => acc end) [] fs in
+        if has_dup (map (fun f => match f with (nm, _, _, _, _) => nm end) fs') then fail KType
+        else oid <- fresh_oid ;; ret (VObj oid [Layer ev oc [] [] fs'])
     | EError x => eval n' ev oc x ;;; fail KRuntime
     | EAssert c m rest =>
         cv <- eval n' ev oc c ;;
@@ -572,8 +585,9 @@ with field_raw (n : nat) (oid : nat) (ls : list layer) (name : str) (upto : nat)
           | Some (Layer lenv outer locals _ fs) =>
               match find_field fs name with
               | None => fail KType
-              | Some (_, plus, body) =>
-                  ev' <- member_env n' oid ls i ;;
+              | Some (_, plus, body, fenv) =>
+                  ev0 <- member_env n' oid ls i ;;
+                  let ev' := fenv ++ ev0 in
                   let oc' := member_octx oid ls i in
                   if plus then
                     match top_def ls name i with
